@@ -124,6 +124,10 @@ func scC06(r *Run) {
 			armed += " " + s
 		}
 	}
+	// always armed: the writer pauses after every broadcast until the woken waiters are at rest, so that a
+	// Write call with several rotations is exactly repeatable (which state a woken waiter re-checks would
+	// otherwise depend on its race with the continuing writer)
+	r.Arm("rotate.afterBroadcast")
 	maxReq := T.Range(1, 12)
 	reqWeight := Pick(T, 1, 3, 6)
 	r.Tracef("config %s calls=%d maxReq=%d reqW=%d armed=[%s]", cfg, len(script), maxReq, reqWeight, armed)
